@@ -57,7 +57,7 @@ MODELLED = {
             "geoh5py/objects/object_base.py": ["ObjectBase.remove_children_values"],
             "geoh5py/data/numeric_data.py": ["NumericData.format_length"], "geoh5py/data/data.py": ["Data.copy"]},
     "C08": {"geoh5py/data/numeric_data.py": ["NumericData.format_values", "NumericData.format_length"],
-            "geoh5py/data/integer_data.py": ["IntegerData.format_type"], "geoh5py/data/boolean_data.py": ["BooleanData.format_type"],
+            "geoh5py/data/integer_data.py": ["IntegerData.format_type"], "geoh5py/data/float_data.py": ["FloatData.format_type"], "geoh5py/data/boolean_data.py": ["BooleanData.format_type"],
             "geoh5py/data/reference_value_map.py": ["ReferenceValueMap._validate_key_value", "ReferenceValueMap.map"],
             RD: ["H5Reader.fetch_values"]},
     "C09": {WR: ["H5Writer.update_field", "H5Writer.write_attributes", "H5Writer.clear_stats_cache", "H5Writer.fetch_handle"],
